@@ -61,6 +61,12 @@ Definition wh_cov (m : nat) (A Kxx Sw : M) : M :=
 Definition unwhiten_mean (m : nat) (L mz mw : M) : M := madd mz (mmul m L mw).
 Definition unwhiten_cov (m : nat) (L Sw : M) : M := mmul m L (mmul m Sw (mT L)).
 
+(* legacy (pre-whitening) checkpoints: a state dict without the `updated_strategy` flag holds the parameters
+   of an UNWHITENED q(u) = N(mq, S); VariationalStrategy.__call__ converts them once, on the first call:
+   m_w = L^-1 (mq - mz),  S_w = (L^-1 R)(L^-1 R)^T = L^-1 S L^-T  for a root R of S *)
+Definition legacy_mean (m : nat) (Linv mz mq : M) : M := mmul m Linv (msub mq mz).
+Definition legacy_cov (m : nat) (Linv S : M) : M := mmul m Linv (mmul m S (mT Linv)).
+
 (* staged versions: the same expressions with every intermediate product materialised once
    ([mat] is the identity up to [meq], lemma [mat_meq]); these are what the executable wrapper
    runs, Proofs/C14 shows them [meq] to the definitions above *)
